@@ -64,6 +64,19 @@ def synthetic_split():
     return Crystal(c.unit_cell, c.space_group, asym, titl="synthetic-split")
 
 
+def synthetic_group(number, a=12.0, c=9.0):
+    """the synthetic water crystal in any of the seven R-lattice groups, hexagonal axes, any axial ratio"""
+    def make():
+        from chmpy.core.element import Element
+        from chmpy.crystal import AsymmetricUnit, Crystal, SpaceGroup, UnitCell
+        uc = UnitCell.hexagonal(a, c)
+        o = np.array([1.9, 3.1, 2.6])
+        cart = np.array([o, o + [0.757, 0.586, 0.0], o + [-0.757, 0.586, 0.0]])
+        asym = AsymmetricUnit([Element[8], Element[1], Element[1]], uc.to_fractional(cart), labels=["O1", "H1", "H2"])
+        return Crystal(uc, SpaceGroup(number, choice="H"), asym, titl=f"synthetic-{number}")
+    return make
+
+
 def synthetic_near_special():
     """R3 with an atom NEAR the three-fold axis, as a CIF quotes it to three decimals (0.333, 0.667, z): its three images are 0.0006
     of a cell edge apart — one site at the default merge tolerance of every query"""
@@ -250,8 +263,16 @@ def run_history(make, hist, slots):
             if changed:
                 nontrivial = True
         elif kind == "sw":
-            if c.space_group.has_hexagonal_rhombohedral_choices() and c.space_group.choice != arg:
-                c.choose_trigonal_lattice(arg)
+            # which groups have both settings is crystallography, not something to ask the code under test
+            if c.space_group.international_tables_number in (146, 148, 155, 160, 161, 166, 167) and c.space_group.choice != arg:
+                try:
+                    c.choose_trigonal_lattice(arg)
+                except Exception as ex:  # noqa
+                    fails.append(f"choose_trigonal_lattice({arg!r}) on space group {c.space_group.international_tables_number} ({c.space_group.choice} axes, cell "
+                                 f"{np.round(c.unit_cell.lengths, 4).tolist()} / {np.round(np.degrees(c.unit_cell.angles), 3).tolist()}) raised {type(ex).__name__}: {ex}")
+                    lines.append(f"noop {tgt}")
+                    outs.append(occ(c))
+                    continue
                 seen_order[tgt] = {}
                 lines.append(f"mutate {tgt} choose_trigonal_lattice {nextv[0]}")
                 nextv[0] += 1
@@ -310,6 +331,11 @@ def _all(ctx, budget):
     plans.append((load_both_tags, "r3c_example.cif with the symmetry loop under both the legacy and the current tag",
                   [(("q", "to_cif_string"), ("sw", "R"), ("q", "to_cif_string"), ("q", "unit_cell_atoms")),
                    (("sw", "R"), ("q", "to_cif_string"), ("sw", "H"), ("q", "to_cif_string"))]))
+    # every one of the seven groups that has both settings, and the metrically special cells c = a and c/a = sqrt(3/2) (alpha = 90)
+    for num_, a_, c_ in [(146, 12.0, 9.0), (148, 12.0, 12.0), (155, 12.0, 9.0), (160, 11.0, 11.0 * math.sqrt(1.5)), (161, 12.0, 9.0), (166, 12.0, 9.0), (167, 12.0, 12.0)]:
+        plans.append((synthetic_group(num_, a_, c_), f"synthetic-group {num_} a={a_:g} c={c_:.4g}",
+                      [(("q", "unit_cell_atoms"), ("sw", "R"), ("q", "unit_cell_atoms"), ("sw", "H"), ("q", "density")),
+                       (("sw", "R"), ("q", "to_cif_string"), ("q", "unit_cell_molecules"))]))
     pq = ["to_poscar_string", "unit_cell_atoms", "density", "to_cif_string"]
     plans.append((synthetic_near_special, "R3 with an atom 0.0006 from the three-fold axis, POSCAR export among the queries",
                   [h for h in histories(ctx, 3, 0, pq) if any(x == ("q", "to_poscar_string") for x in h)][:120]
@@ -416,6 +442,11 @@ def replay(ctx, obj):
         return judge_shared()
     slots = gen_cc.scan()["slots"]
     st = i["structure"]
+    if st.startswith("synthetic-group"):
+        _, num_, a_, c_ = st.replace("a=", "").replace("c=", "").split()
+        return_make = synthetic_group(int(num_), float(a_), float(c_))
+        _, _, fails, _ = run_history(return_make, [tuple(x) for x in i["history"]], slots)
+        return fails[0] if fails else None
     make = (synthetic_near_special if st.startswith("R3 with an atom") else synthetic_cif_sqrt6 if st.startswith("R-3m loaded") else
             synthetic_split if "split" in st else synthetic_disorder if st.startswith("P1 with two") else load_modern_tags if "_space_group_symop_*" in st else
             load_both_tags if "both the legacy" in st else synthetic if st.startswith("synthetic") else (lambda: load(st)))
